@@ -42,9 +42,9 @@ pub fn check_in(ctx: &Ctx, c: &Collection) -> Report {
 pub fn run(ctx: &Ctx, stats: &mut Stats) {
     let c2 = ctx.clone();
     let check = move |c: &Collection| check_in(&c2, c);
-    let n = ctx.tier.pick(176, 6000);
+    let n = ctx.tier.pick(560, 12000);
     run_prop(ctx, stats, "collections", n, gen::collection_strategy(GenCfg::standard()), &check);
-    let n2 = ctx.tier.pick(16, 240);
+    let n2 = ctx.tier.pick(48, 600);
     let cfg = GenCfg { max_contig: 2200, max_samples: 3, many_samples_pct: 100, single_file: None, vary_presentation: false };
     run_prop(ctx, stats, "many-samples", n2, gen::collection_strategy(cfg), &check);
 }
